@@ -70,6 +70,16 @@ Reorders(g, skip) ==
 BuiltDifferently(t, n) == (Len(t.m0[n].comps) = 0) # (Len(t.m1[n].comps) = 0)
 Known_C13_1(t) ==
   Has(t, "err") /\ \E n \in Remaining(t) : BuiltDifferently(t, n) /\ (Reorders(t.m0[n], Skip(t)) \/ Reorders(t.m1[n], Skip(t)))
+\* remaining glyphs that reach, through components, a skipped glyph drawn in the sparse layer: the sparse master must define them
+\* (only through chains of SKIPPED glyphs: a kept component that has the master itself carries it for its users)
+RECURSIVE ViaSkipped(_, _, _)
+ViaSkipped(t, n, fuel) ==
+  fuel > 0 /\ \E k \in 1..Len(t.m0[n].comps) :
+     LET b == t.m0[n].comps[k].b IN b \in Skip(t) /\ b \in DOMAIN t.m0 /\ (b \in DOMAIN t.sparse \/ ViaSkipped(t, b, fuel - 1))
+NeedsSparse(t) == {n \in Remaining(t) : ViaSkipped(t, n, Cardinality(DOMAIN t.m0))}
+SparseMasterOK(t) ==
+  Has(t, "sparseHas") =>
+    \A n \in NeedsSparse(t) : n \in SetOf(t.sparseHas) /\ n \in DOMAIN t.rS /\ SameRendering(Expected(t, 4, n), t.rS[n])
 Clauses(t) ==
   IF Has(t, "err") THEN << <<"compiles", "P", FALSE>> >> ELSE
   << <<"skipped-absent",          "P", SetOf(t.order1) \cap Skip(t) = {}>>,
@@ -80,6 +90,7 @@ Clauses(t) ==
                                         n \in DOMAIN t.locs[k].r0 /\ n \in DOMAIN t.locs[k].r1
                                         /\ SameRendering(t.locs[k].r0[n], t.locs[k].r1[n])>>,
      <<"same-advance-as-unskipped",  "P", \A k \in 1..Len(t.locs) : \A n \in Remaining(t) : t.locs[k].adv0[n] = t.locs[k].adv1[n]>>,
+     <<"sparse-master-defines-what-uses-skipped-glyphs", "P", SparseMasterOK(t)>>,
      <<"renders-the-designspace",    "M", \A k \in 1..Len(t.locs) : \A n \in Remaining(t) : ObsOK(t, t.locs[k], 1, n)>>,
      <<"model-unskipped-build",      "M", \A k \in 1..Len(t.locs) : \A n \in DOMAIN t.m0 : ObsOK(t, t.locs[k], 0, n)>> >>
 First(cl, kind) == LET bad == {k \in 1..Len(cl) : cl[k][2] = kind /\ ~cl[k][3]} IN IF bad = {} THEN "none" ELSE cl[Min(bad)][1]
